@@ -1,4 +1,7 @@
 import NavisModel.Proofs.UnitsLemmas
+import NavisModel.Proofs.UnitsHistLemmas
+import NavisModel.Proofs.UnitsEuclid
+import NavisModel.Proofs.UnitsSpecLemmas
 /-!
 # C15 — coordinate arithmetic and units keep physical quantities consistent
 
@@ -257,6 +260,21 @@ theorem map_units_unit_independent {n1 n2 : Neuron} {e1 e2 : Int} (h1 : n1.units
     | metre e =>
       simp only [mapUnits, Units.dimensionless, h1, h2, hiso, mapRatio_metre h1, mapRatio_metre h2, hp]
 
+/-- **map_units_nonpositive_raises (known finding, for all inputs).** As written, `to_neuron_space` hands the ratio
+to `round_smart`, whose `math.log10` raises for a ratio `≤ 0`: on every neuron with isometric units of positive size a
+length of zero (`'0 nm'`) or below is rejected (`ValueError: math domain error`) although the plain number `0` passes
+through — so `heal_skeleton(max_dist='0 nm')`, `prune_twigs(x, '0 um')` … never reach their code. -/
+theorem map_units_nonpositive_raises {n : Neuron} {a : Rat} {e en : Int} (hb : n.units.base = .metre en)
+    (hiso : n.units.iso = true) (hm : 0 < n.units.mag.x) (ha : a ≤ 0) :
+    mapUnits n (.qty a (.metre e)) = none ∧ mapUnits n (.number a) = some a := by
+  refine ⟨?_, rfl⟩
+  have hP : 0 < n.units.phys.x := by
+    simp only [Units.phys, V3.mul, V3.rep]; exact mul_pos hm (scale_pos _)
+  have hq : mapRatio n.units a e ≤ 0 := by
+    rw [mapRatio_metre hb]
+    exact div_nonpos_of_nonpos_of_nonneg (mul_nonpos_of_nonpos_of_nonneg ha (le_of_lt (pow10_pos e))) (le_of_lt hP)
+  simp [mapUnits, Units.dimensionless, hb, hiso, roundSmart, hq]
+
 /-- Plain numbers pass through; dimensionless or non-isometric neurons reject quantities. -/
 theorem map_units_guards (n : Neuron) (v a : Rat) (b : Base) :
     mapUnits n (.number v) = some v ∧
@@ -347,6 +365,171 @@ theorem samePhysB_sound (radii : Bool) (a b : Neuron) :
   unfold samePhysB
   cases radii <;> simp [closeL_zero, closeRL_zero, and_assoc]
 
+/-! ## 10. physical quantities after a *history* (cached distance views, path sums)
+
+`Skel` = skeleton + parent rows + cached views (`Model/UnitsHist.lean`); `step` / `runHist` = warming views,
+`* / *= /= + - += -=` with any accepted operand, `convert_units`, in any order and number.  Which cached attributes an
+operator deletes is read from the **generated** `Gen.Units.opFacts` / `Gen.Units.treeTempAttr` (the literals of the
+current source): `gen_clears_distance_caches` is the proof obligation that stops checking when an operator starts
+to keep a distance-carrying view (e.g. `exclude=[…, '_igraph', '_graph_nx']`).
+-/
+
+/-- **gen_clears_distance_caches** (over the generated operator table).  In the current source, the
+`_clear_temp_attr` that ends `TreeNeuron.__mul__ / __truediv__` is applied to the returned object and deletes every
+cached view whose content depends on edge lengths or coordinates (`_igraph`, `_graph_nx`, `_geodesic_matrix`,
+`_cable_length`, `_segments`, `_adjacency_matrix`, `_simple`: each is in `TEMP_ATTR` and not in the literal
+`exclude`); the one that ends `__add__ / __sub__` deletes the coordinate-carrying `_simple`. -/
+theorem gen_clears_distance_caches : GenFacts := ⟨by decide, by decide, by decide, by decide⟩
+
+/-- a freshly built skeleton (no cached view) is coherent -/
+theorem fresh_coherent (n : Neuron) (par : List Int) : Coherent ⟨n, par, []⟩ := by
+  intro e he; simp at he
+
+/-- **history_invariant.** For every skeleton, every history (any number of steps; numbers, 4-vectors, offsets,
+any `to_compact` prefix, `convert_units`, views warmed at any point): if the history is defined, the cached views
+of the result all reflect the result's node table, and the *physical* edge vectors (child − parent) × units — per
+axis — are those of the neuron the history started from; topology, name and id are untouched. -/
+theorem history_invariant {s s' : Skel} {h : List Step} (hk : s.nrn.kind ≠ .voxel) (hc : Coherent s)
+    (hr : runHist s h = some s') :
+    Coherent s' ∧ physEdges s' = physEdges s ∧ s'.par = s.par ∧ s'.nrn.name = s.nrn.name ∧ s'.nrn.id = s.nrn.id := by
+  obtain ⟨i, c⟩ := runHist_inv gen_clears_distance_caches hk hr
+  exact ⟨c hc, i.phys, i.par, i.name, i.id⟩
+
+/-- **history_distance_views.** Edge weights seen through *any* distance view (`.igraph`, `.graph`,
+`.geodesic_matrix`, `.cable_length`, `.segments`, cached before, during or after the history) of the result, times
+the result's unit, equal the weights of the original times its unit — for every edge-length function `len` that is
+homogeneous on the edges (`len (k·d) = k · len d`, `k` = the unit: the Euclidean norm, see `history_euclid`), whenever
+both ends of the history have isometric units. -/
+theorem history_distance_views {α : Type} [Semiring α] (cast : Rat → α) (len : V3 → α) {s s' : Skel} {h : List Step}
+    (hk : s.nrn.kind ≠ .voxel) (hc : Coherent s) (hr : runHist s h = some s')
+    (hiso : s.nrn.units.iso = true) (hiso' : s'.nrn.units.iso = true)
+    (hlen : ∀ d ∈ edgeVecs s.nrn.pts s.par, len (d.mul (V3.rep s.nrn.units.phys.x)) = cast s.nrn.units.phys.x * len d)
+    (hlen' : ∀ d ∈ edgeVecs s'.nrn.pts s'.par, len (d.mul (V3.rep s'.nrn.units.phys.x)) = cast s'.nrn.units.phys.x * len d)
+    {a b : String} (ha : a ∈ weightViews) (hb : b ∈ weightViews) :
+    (viewW len s' a).map (fun w => cast s'.nrn.units.phys.x * w) = (viewW len s b).map (fun w => cast s.nrn.units.phys.x * w) := by
+  obtain ⟨hc', hp, _⟩ := history_invariant hk hc hr
+  rw [viewW_of_coherent len hc' ha, viewW_of_coherent len hc hb, ← weights_phys cast len s' hlen' hiso',
+    ← weights_phys cast len s hlen hiso, hp]
+
+/-- **history_path_sums.** Hence every *linear* distance observable `g` (sums of edge weights along paths:
+`dist_to_root`, `dist_between`, rows of the geodesic matrix, segment lengths, cable length — `pathToRoot_linear`,
+`cable_linear`, closed under `+` and `−`) of the result, times the result's unit, equals that of the original times
+its unit. -/
+theorem history_path_sums {α : Type} [Semiring α] (cast : Rat → α) (len : V3 → α) {s s' : Skel} {h : List Step}
+    (hk : s.nrn.kind ≠ .voxel) (hc : Coherent s) (hr : runHist s h = some s')
+    (hiso : s.nrn.units.iso = true) (hiso' : s'.nrn.units.iso = true)
+    (hlen : ∀ d ∈ edgeVecs s.nrn.pts s.par, len (d.mul (V3.rep s.nrn.units.phys.x)) = cast s.nrn.units.phys.x * len d)
+    (hlen' : ∀ d ∈ edgeVecs s'.nrn.pts s'.par, len (d.mul (V3.rep s'.nrn.units.phys.x)) = cast s'.nrn.units.phys.x * len d)
+    {a b : String} (ha : a ∈ weightViews) (hb : b ∈ weightViews) (g : List α → α) (hg : LinearObs g) :
+    cast s'.nrn.units.phys.x * g (viewW len s' a) = cast s.nrn.units.phys.x * g (viewW len s b) := by
+  rw [← hg, ← hg, history_distance_views cast len hk hc hr hiso hiso' hlen hlen' ha hb]
+
+/-- distance to the root of every row and the cable length are such observables -/
+theorem path_sums_are_linear {α : Type} [Semiring α] (par : List Int) (fuel i : Nat) :
+    LinearObs (fun w : List α => pathToRoot w par fuel i) ∧ LinearObs (cable (α := α)) :=
+  ⟨pathToRoot_linear par fuel i, cable_linear⟩
+
+/-- **history_euclid.** The statement for the real Euclidean edge length: for units of positive size the
+homogeneity hypotheses hold, so after any history `√(Δx²+Δy²+Δz²)`-path sums × units are unchanged. -/
+theorem history_euclid {s s' : Skel} {h : List Step} (hk : s.nrn.kind ≠ .voxel) (hc : Coherent s)
+    (hr : runHist s h = some s') (hiso : s.nrn.units.iso = true) (hiso' : s'.nrn.units.iso = true)
+    (hpos : 0 < s.nrn.units.phys.x) (hpos' : 0 < s'.nrn.units.phys.x)
+    {a b : String} (ha : a ∈ weightViews) (hb : b ∈ weightViews) (g : List ℝ → ℝ) (hg : LinearObs g) :
+    (s'.nrn.units.phys.x : ℝ) * g (viewW enorm s' a) = (s.nrn.units.phys.x : ℝ) * g (viewW enorm s b) :=
+  history_path_sums (fun q : Rat => (q : ℝ)) enorm hk hc hr hiso hiso'
+    (fun d _ => enorm_homog d hpos) (fun d _ => enorm_homog d hpos') ha hb g hg
+
+/-- **scale_euclid_any_sign.** One multiplication by a number `k ≠ 0` of *either sign* (a negative factor mirrors the
+neuron and makes the unit negative): every Euclidean edge length — hence every path sum — times the *absolute* unit
+is unchanged. -/
+theorem scale_euclid_any_sign {n m : Neuron} {k : Rat} {p : Int} (hk : n.kind ≠ .voxel) (h : mul n (.s k) p = some m)
+    (par : List Int) :
+    (weights enorm ⟨m, par, []⟩).map (fun w => w * |((m.units.phys.x : Rat) : ℝ)|) =
+      (weights enorm ⟨n, par, []⟩).map (fun w => w * |((n.units.phys.x : Rat) : ℝ)|) :=
+  mul_scalar_weights_abs hk h par
+
+/-- The executable edge length `elen` (exact rational root) is the Euclidean norm on vectors of rational length
+and is homogeneous there — this is what the driver evaluates on the harness' integer-length edges. -/
+theorem elen_is_euclid {v : V3} {r : Rat} (hr : 0 ≤ r) (hv : normSq v = r * r) :
+    enorm v = ((elen v : Rat) : ℝ) ∧ ∀ k : Rat, 0 < k → elen (v.mul (V3.rep k)) = k * elen v :=
+  ⟨enorm_eq_elen hr hv, fun _ hk => elen_homog hr hv hk⟩
+
+/-- **histPhysB_sound.** The checker the driver evaluates on navis' own edge weights `w` (tolerance 0) says exactly:
+`w × unit of the result` = lengths of the physical edge vectors of the original. -/
+theorem histPhysB_sound (s0 : Skel) (u : Units) (w : List Rat) :
+    histPhysB 0 s0 u w = true ↔ w.map (fun x => x * u.phys.x) = (physEdges s0).map elen := by
+  unfold histPhysB; exact allClose_zero _ _
+
+theorem histPathB_sound (s0 : Skel) (u : Units) (d : List Rat) :
+    histPathB 0 s0 u d = true ↔ d.map (fun x => x * u.phys.x) =
+      (List.range s0.par.length).map (pathToRoot ((physEdges s0).map elen) s0.par s0.par.length) := by
+  unfold histPathB; exact allClose_zero _ _
+
+theorem histCableB_sound (s0 : Skel) (u : Units) (c : Rat) :
+    histCableB 0 s0 u c = true ↔ c * u.phys.x = cable ((physEdges s0).map elen) := by
+  unfold histCableB; exact relClose_zero _ _
+
+/-- **model_passes_histPhysB.** The model's own views pass the checker after every history: for a coherent start
+with rational edge lengths at both ends and isometric positive units at the end, the weights any distance view of
+the result returns satisfy `histPhysB 0` against the start. -/
+theorem model_passes_histPhysB {s s' : Skel} {h : List Step} (hk : s.nrn.kind ≠ .voxel) (hc : Coherent s)
+    (hr : runHist s h = some s') (hiso' : s'.nrn.units.iso = true) (hpos' : 0 < s'.nrn.units.phys.x)
+    (hx' : exactEdges s' = true) {a : String} (ha : a ∈ weightViews) :
+    histPhysB 0 s s'.nrn.units (viewW elen s' a) = true := by
+  obtain ⟨hc', hp, _⟩ := history_invariant hk hc hr
+  rw [histPhysB_sound, viewW_of_coherent elen hc' ha, ← hp,
+    weights_phys (fun q => q) elen s' (elen_homog_on_exact hx' hpos') hiso']
+  apply List.map_congr_left; intro w _; exact mul_comm _ _
+
+/-! ## 11. the operators as extracted from the current source are the model operators
+
+`Gen.Units.opFacts` is regenerated from `navis/core/{skeleton,mesh,dotprop,voxel}.py` on every check: per class and
+operator, which data are rewritten with which arithmetic operator, what is done to the connector columns and to
+`.units` (`n.units = (n.units <op> other).to_compact()`), the operand-length guard, `other = other[:3]`, the returned
+object.  `applyFact` (Model/UnitsSpec.lean) interprets a row on the C15 neuron model. -/
+
+/-- **gen_operator_table.** The semantic fields of the 16 extracted rows are exactly the table that the
+hand-written `mul / div / add / sub` implement: coordinates (and `radius` for skeletons when scaling) and
+connectors rewritten with the operator, units rescaled with the *inverse* operator and compacted (voxels: the same
+operator — the known deviation), `+`/`-` leave radii and units alone, skeletons demand 4 (scaling) / 3 (shift)
+components and drop the 4th before the connectors. -/
+theorem gen_operator_table : Gen.Units.opFacts.map factCore = expectedTable := by decide
+
+/-- **operators_as_extracted.** For every extracted row `f` of class `k` and operator `op`, every neuron of that
+class (with a radius column only on skeletons), every operand and prefix: interpreting the row gives exactly the model
+operator — so sections 1–4 and 10 are statements about the operators as written in the current source. -/
+theorem operators_as_extracted {f : Gen.Units.OpFact} (hf : f ∈ Gen.Units.opFacts) {k : Kind} {op : OpK}
+    (hc : f.cls = clsOf k) (ho : f.op = op.name) (n : Neuron) (a : Factor) (p : Int) (hk : n.kind = k)
+    (hr : RadiiOnlyOnTrees n) : applyFact f n a p = modelOp op n a p :=
+  table_rows_are_model gen_operator_table hf hc ho n a p hk hr
+
+/-- every (class, operator) pair has a row (the statement above is not vacuous) -/
+theorem operator_rows_complete (k : Kind) (op : OpK) :
+    ∃ f ∈ Gen.Units.opFacts, f.cls = clsOf k ∧ f.op = op.name := by
+  cases k <;> cases op <;> decide
+
+/-- **gen_dotprops_drop_kdtree.** Every `Dotprops` operator deletes the cached KD-tree (`delattr(n, '_tree')`) of the
+object it returns — `Dotprops` has no content hash that would catch a stale tree after `x *= k`. -/
+theorem gen_dotprops_drop_kdtree : ∀ f ∈ Gen.Units.opFacts, f.cls = "Dotprops" → f.dropsKdTree = true := by decide
+
+/-- **gen_unit_handling.** Further literals of the current source that the model hard-wires and the property depends
+on: `convert_units` multiplies by `n.units.to(to).magnitude`; `to_neuron_space` converts the length to
+`neuron.units`, divides by `neuron.units.magnitude` and rounds with `round_smart` (default precision 8), and rejects
+dimensionless and non-isometric neurons; the units setter accepts 1 or 3 entries, rewrites `micron(s)` to `um` (in any order:
+pint reads `ums` as the plural) and turns a number `v` into `"v dimensionless"`; `TreeNeuron.__init__` / `MeshNeuron.__init__` assign `units` last and
+only when given or not yet present (navis 4ae0b05). -/
+theorem gen_unit_handling :
+    Gen.Units.convertOp = "*" ∧ Gen.Units.convertFactor = "n.units.to(to).magnitude" ∧
+    Gen.Units.mapToTarget = "neuron.units" ∧ Gen.Units.mapDivisor = "neuron.units.magnitude" ∧
+    Gen.Units.mapRounding = "round_smart" ∧ Gen.Units.roundSmartPrec = 8 ∧
+    Gen.Units.mapDimlessGuard = true ∧ Gen.Units.mapIsoGuard = true ∧
+    Gen.Units.unitsAllowedLens = [1, 3] ∧ ("micron", "um") ∈ Gen.Units.unitsSpellingFix ∧
+    (∀ kv ∈ Gen.Units.unitsSpellingFix, kv.2 = "um" ∧ (kv.1 = "micron" ∨ kv.1 = "microns")) ∧
+    Gen.Units.unitsNumberTemplate = "{} dimensionless" ∧
+    (∀ e ∈ Gen.Units.initUnits, (e.1 = "TreeNeuron" ∨ e.1 = "MeshNeuron") →
+      e.2.1 = true ∧ e.2.2.1 = true ∧ e.2.2.2 = "units is not None or not hasattr(self, '_unit_str')") := by
+  decide
+
 /-! ## 9. non-vacuity and witnesses (concrete data, evaluated by the kernel) -/
 
 section Examples
@@ -416,6 +599,26 @@ offset 10: `to_compact` turns the voxel size into `8 um` while offset and connec
 theorem voxel_compact_mixes_prefixes :
     (mul exVoxel (.s 1000) (-6)).map worldPts ≠ some ((worldPts exVoxel).map (fun c => c.mul (V3.rep 1000))) := by
   decide +kernel
+
+
+-- the seeded change `exclude=['classify_nodes', '_igraph', '_graph_nx']` as a witness: with that exclude list the
+-- cached graph survives `x / 125` and the view returns the OLD weights (12642 µm instead of 101 µm in the demo)
+example : (clearCache Gen.Units.treeTempAttr ["classify_nodes", "_igraph", "_graph_nx"]
+    [("_igraph", [⟨0, 0, 0⟩, ⟨3, 4, 0⟩]), ("_cable_length", [])]).map (·.1) = ["_igraph"] := by decide
+example : (clearCache Gen.Units.treeTempAttr ["classify_nodes"]
+    [("_igraph", [⟨0, 0, 0⟩, ⟨3, 4, 0⟩]), ("_cable_length", [])]).map (·.1) = [] := by decide
+
+/-- 3-node skeleton of `exTree` with its topology; warm everything, `/ 125` (8 nm → 1 µm), warm, `* 2`, `+ 4` -/
+def exSkel : Skel := ⟨exTree, [-1, 0, 1], []⟩
+def exHist : List Step :=
+  [.warm ["_igraph", "_graph_nx", "_geodesic_matrix", "_cable_length", "_simple"], .scale true (.s 125) (-6),
+   .warm ["_igraph"], .scale false (.s 2) (-9), .shift false (.v3 ⟨4, 0, 0⟩)]
+
+example : (runHist exSkel exHist).isSome = true := by decide +kernel
+example : exactEdges exSkel = false := by decide +kernel      -- (0,3,5) has irrational length …
+example : (runHist ⟨{ exTree with pts := [⟨0, 0, 0⟩, ⟨4, 0, 0⟩, ⟨4, 3, 4⟩] }, [-1, 0, 1], []⟩ exHist).map
+    (fun s' => (exactEdges s', viewW elen s' "_igraph", s'.nrn.units)) =
+    some (true, [0, 4 / 125 * 2, 5 / 125 * 2], ⟨V3.rep 500, .metre (-9)⟩) := by decide +kernel
 
 end Examples
 
